@@ -13,6 +13,14 @@ CRATES = {
             ("src/tables/mod.rs", "mpq/tables_common.rs", "verif_kani_common", "pub(crate)"),
         ],
     },
+    "wdt": {
+        "dir": "file-formats/world-data/wow-wdt",
+        "attach": [("src/lib.rs", "wdt/wdt.rs", "verif_kani_wdt", "")],
+    },
+    "wdl": {
+        "dir": "file-formats/world-data/wow-wdl",
+        "attach": [("src/lib.rs", "wdl/wdl.rs", "verif_kani_wdl", "")],
+    },
 }
 
 GLOBAL_ASSUMPTIONS = [
@@ -122,3 +130,40 @@ H("C04", "mpq", _C, "quick", "C04.f BET hash == one-at-a-time of the lower-folde
   "name: [u8; N] ASCII symbolic", "N in {1,3,5}", assumes=["bytes < 0x80"])
 H("C04", "mpq", _C, "quick", "canary", ["c04_canary"], ["crypto::encryption::encrypt_block"], "vacuity twin", "-",
   expect="canary")
+
+# =============================================================================== C18
+_W = "verif_kani_wdt"
+H("C18", "wdt", _W, "quick", "C18.a world_to_tile(tile_to_world(t)) == t for all 64x64 tiles", ["c18a_tile_world_roundtrip"],
+  ["tile_to_world", "world_to_tile"], "tile x, y: u32 symbolic < 64 (all 4096 tiles in one query; IEEE-754 single in CBMC's float model)", "none",
+  assumes=["x < 64, y < 64"])
+H("C18", "wdt", _W, "quick", "C18.b WDT chunk records: write(read(b)) == b, read(write(c)) == c, size() == bytes written",
+  ["c18b_mphd_bytes_roundtrip", "c18b_mphd_api_roundtrip", "c18b_mver_roundtrip", "c18b_modf_bytes_roundtrip",
+   "c18b_modf_two_entries_size", "c18b_modf_bad_size_rejected"],
+  ["chunks::mphd::MphdChunk::{read,write,size}", "chunks::MverChunk::{read,write,size}", "chunks::ModfChunk::{read,write,size}"],
+  "record bytes fully symbolic (32 / 4 / 64 bytes) or fields symbolic", "one record (MODF: 1 and 2 entries)")
+H("C18", "wdt", _W, "thorough", "C18.b MAID: size() == bytes written for 1, 2, 8 sections",
+  ["c18b_maid_size_1_section", "c18b_maid_size_2_sections", "c18b_maid_size_8_sections"],
+  ["chunks::maid::MaidChunk::{with_section_count,new,set,write,size}"],
+  "section count concrete in {1,2,8}; one file id at a symbolic (x,y)", "64x64 grid per section (format constant); counting sink", timeout=2400)
+H("C18", "wdt", _W, "thorough", "C18.b MAID/MAIN write->read keeps an entry at an arbitrary grid position, nothing appears elsewhere",
+  ["c18b_maid_roundtrip_1_section", "c18b_main_roundtrip"],
+  ["chunks::maid::MaidChunk::{write,read,get,set}", "chunks::MainChunk::{write,read,get,get_mut,size}"],
+  "one entry with symbolic content at symbolic (x,y), second symbolic probe position", "full 64x64 grid, 1 section", timeout=2400)
+H("C18", "wdt", _W, "thorough", "C18.c MWMO names write->read, size() == bytes written", ["c18c_mwmo_roundtrip"],
+  ["chunks::MwmoChunk::{write,read,size,add_filename}"], "two names of 3 and 2 symbolic ASCII bytes (non-NUL)", "2 names <= 3 bytes", timeout=2400)
+H("C18", "wdt", _W, "quick", "C18.d MWMO emission rule is stable under write->read->write (version detection vs should_have_chunk)",
+  ["c18d_mwmo_rule_stable_under_reparse"],
+  ["version::VersionConfig::should_have_chunk", "WdtReader::detect_version", "WdtFile::is_wmo_only"],
+  "version (10 values), MPHD flags u32, presence of MWMO/MODF/MAID all symbolic", "chunk presence logic only (no bytes)")
+H("C18", "wdt", _W, "quick", "canary", ["c18_wdt_canary"], ["tile_to_world"], "vacuity twin", "-", expect="canary")
+_L = "verif_kani_wdl"
+H("C18", "wdl", _L, "quick", "C18.e WDL records: write(read(b)) == b with exactly the documented size",
+  ["c18e_wdl_vec3d", "c18e_wdl_bbox", "c18e_wdl_model_placement", "c18e_wdl_m2_placement", "c18e_wdl_m2_visibility", "c18e_wdl_holes"],
+  ["types::Vec3d::{read,write}", "types::BoundingBox::{read,write}", "types::ModelPlacement::{read,write}", "types::M2Placement::{read,write}",
+   "types::M2VisibilityInfo::{read,write}", "types::HolesData::{read,write}", "types::Chunk::{new,read,write}"],
+  "record bytes fully symbolic (12/24/64/40/28/32 bytes); chunk: magic + payload <= 6 symbolic bytes, symbolic length", "one record")
+H("C18", "wdl", _L, "thorough", "C18.e WDL chunk framing: header declares exactly the payload", ["c18e_wdl_chunk_framing"],
+  ["types::Chunk::{new,read,write}"], "magic and 6 payload bytes symbolic", "payload length 6", timeout=2400)
+H("C18", "wdl", _L, "thorough", "C18.e MARE heightmap 545 values write->read, payload == TOTAL_COUNT*2 == 1090", ["c18e_wdl_heightmap_roundtrip"],
+  ["types::HeightMapTile::{new,read,write}"], "one outer and one inner height symbolic at symbolic indices", "545 values (format constant)", timeout=2400)
+H("C18", "wdl", _L, "quick", "canary", ["c18_wdl_canary"], ["types::Vec3d::read"], "vacuity twin", "-", expect="canary")
